@@ -30,6 +30,7 @@ RULE = ("quick: all interleavings of two fixed short sessions (finished without 
         "30 near the u32 boundary; thorough: 3 fixed pairs, 3000 random, 600 perturbed, 100 boundary. non-trivial = well-formed history with >= 2 "
         "sessions in which a SessionFinished follows a SyncFinished with non-zero sync bytes (the double-count site)")
 NONTRIVIAL_FLOOR = 50
+REGISTERED = True
 
 M_KINDS = (1, 2, 3, 4)  # events carrying metrics
 ZERO = [0] * 12
